@@ -286,6 +286,8 @@ where
         let mut actions = Vec::new();
         #[cfg(getong_stateright_verif)]
         let max_count = crate::verif_hooks::block_size(max_count);
+        #[cfg(getong_stateright_verif)]
+        let generated = &crate::verif_hooks::YieldingMap(generated);
         let mut local_pending = pending
             .drain(..max_count.min(pending.len()))
             .collect::<Vec<_>>();
